@@ -1590,6 +1590,26 @@ def external(I, dotted):
     if dotted == "itertools.permutations":
         import itertools as _it2
         return Builtin(dotted, lambda it, r=None: GenVal([tuple(c) for c in _it2.permutations(iterate(I, it), None if r is None else concrete_int(r))]))
+    if dotted == "dataclasses":
+        return ModuleVal(dotted, external=dotted)
+    if dotted == "dataclasses.field":
+        from .symval import FieldSpec
+        return Builtin(dotted, lambda **k: FieldSpec(**k))
+    if dotted == "dataclasses.dataclass":
+        return Builtin(dotted, lambda *a, **k: (a[0] if a else Builtin("dataclass()", lambda c_: c_)))
+    if dotted in ("dataclasses.asdict", "dataclasses.astuple", "dataclasses.fields", "dataclasses.replace"):
+        def dc_fn(o, **changes):
+            fs = [f.name for f in getattr(o.cls, "dc_fields", [])]
+            if dotted.endswith("asdict"):
+                return {n_: I.getattr(o, n_) for n_ in fs}
+            if dotted.endswith("astuple"):
+                return tuple(I.getattr(o, n_) for n_ in fs)
+            if dotted.endswith("fields"):
+                return tuple(getattr(o if isinstance(o, ClassVal) else o.cls, "dc_fields", []))
+            vals = {n_: I.getattr(o, n_) for n_ in fs}
+            vals.update(changes)
+            return I.instantiate(o.cls, [], vals)
+        return Builtin(dotted, dc_fn)
     if dotted in ("importlib", ):
         return ModuleVal(dotted, external=dotted)
     if dotted == "importlib.import_module":
